@@ -27,7 +27,7 @@ Proved, for every input and every token the lexer emits:
   lies between the end of the previous token's lexing and `Pos` (comment tokens and the error token
   of an unterminated block comment: `Pos` is the first byte of the comment text, the opener directly
   before it, the blank run ends at the opener). The end of a token's lexing is pinned to
-  `Pos + |Val|` for keywords, symbols, identifiers and comments; for numbers, strings and error
+  `Pos + |Val|` for keywords, symbols, identifiers, numbers and comments; for strings and error
   tokens only `Pos < end` is stated (string literal extents: `Ecal.Props.C14Lex`);
 * the invariant between tokens (`lexer_pos_invariant_partial`, partial for the same `#` staleness)
   and the loop / scanner lemmas it rests on.
@@ -351,10 +351,11 @@ example : (∀ t ∈ (lex witnessSrc).toList, t.id ≠ tERROR) ∧
     * at `spos` stands a rune that is NOT blank (inside the input);
     * `[e, spos)` is a run of blank runes (`BlankRun`: unicode.IsSpace ∨ IsControl, rune after rune);
     * `e = 0` if `t` is the first token; otherwise `e` lies behind the `Pos` of the previous token `a`
-      and is where the lexing of `a` ended — for keywords, symbols, identifiers and `#` comments
-      exactly `a.pos + |a.val|`, for block comments `a.pos + |a.val| + 2` (`PrevEnd` / `EndOK`: directly
-      behind `a`'s text; for numbers, string and error tokens only `a.pos < e` is stated here —
-      `Ecal.Props.C14Lex` gives the extent of string literals).
+      and is where the lexing of `a` ended — for keywords, symbols, identifiers, numbers and `#`
+      comments exactly `a.pos + |a.val|`, for block comments `a.pos + |a.val| + 2` (`PrevEnd` / `EndOK`:
+      directly behind `a`'s text; a number's value is its lower-cased text, which has the same length:
+      a text `validFloat` accepts has only digits, `.`, `e`, `+`; for string and error tokens only
+      `a.pos < e` is stated here — `Ecal.Props.C14Lex` gives the extent of string literals).
     So nothing but blanks lies between the end of one token's text and the first character of the
     next token (comments are tokens of the list themselves): together with
     `token_starts_at_first_character` and `token_text_at_pos`, `Pos` IS the first character of the
@@ -367,7 +368,8 @@ theorem gap_is_blank (input : List Nat) (pre : List Tok) (t : Tok) (post : List 
        ∃ pre' a, pre = pre' ++ [a] ∧ a.pos < e ∧
          (a.id = tPOSTCOMMENT → e = a.pos + a.val.length) ∧
          (a.id = tPRECOMMENT → e = a.pos + a.val.length + 2) ∧
-         (7 ≤ a.id → e = a.pos + a.val.length)) := by
+         (7 ≤ a.id → e = a.pos + a.val.length) ∧
+         (a.id = tNUMBER → e = a.pos + a.val.length)) := by
   obtain ⟨body, fin, h1, ⟨_, _, _, b4⟩, h3⟩ := lex_final input
   rw [h1] at h
   have hb : ∃ post', body = pre ++ t :: post' := by
@@ -382,13 +384,15 @@ theorem gap_is_blank (input : List Nat) (pre : List Tok) (t : Tok) (post : List 
 /-- **token_pos_is_first_character.** The plain form for tokens that are neither comments nor error
     tokens (keywords, symbols, identifiers, numbers, strings): the rune at `Pos` is not blank and
     everything between the end of the previous token's lexing (`e`; offset 0 for the first token;
-    `a.pos + |a.val|` behind a keyword / symbol / identifier) and `Pos` is a run of blank runes. -/
+    `a.pos + |a.val|` behind a keyword / symbol / identifier / number) and `Pos` is a run of blank
+    runes. -/
 theorem token_pos_is_first_character (input : List Nat) (pre : List Tok) (t : Tok) (post : List Tok)
     (h : (lex input).toList = pre ++ t :: post) (h1 : t.id ≠ tEOF) (h2 : t.id ≠ tPOSTCOMMENT)
     (h3 : t.id ≠ tPRECOMMENT) (h4 : t.id ≠ tERROR) :
     blank (some (decodeRune input.toArray t.pos).1) = false ∧
     ∃ e, BlankRun input.toArray e t.pos ∧
-      ((pre = [] ∧ e = 0) ∨ ∃ pre' a, pre = pre' ++ [a] ∧ a.pos < e ∧ (7 ≤ a.id → e = a.pos + a.val.length)) := by
+      ((pre = [] ∧ e = 0) ∨ ∃ pre' a, pre = pre' ++ [a] ∧ a.pos < e ∧
+        (7 ≤ a.id ∨ a.id = tNUMBER → e = a.pos + a.val.length)) := by
   obtain ⟨spos, e, hoff, _, hb, hrun, hprev⟩ := gap_is_blank input pre t post h h1
   have hs : t.pos = spos := by
     rcases hoff with ⟨hp, _⟩ | ⟨hp, _⟩ | hp
@@ -399,9 +403,9 @@ theorem token_pos_is_first_character (input : List Nat) (pre : List Tok) (t : To
     · exact hp
   rw [hs]
   refine ⟨hb, e, hrun, ?_⟩
-  rcases hprev with hp | ⟨pre', a, q1, q2, _, _, q5⟩
+  rcases hprev with hp | ⟨pre', a, q1, q2, _, _, q5, q6⟩
   · exact Or.inl hp
-  · exact Or.inr ⟨pre', a, q1, q2, q5⟩
+  · exact Or.inr ⟨pre', a, q1, q2, fun h => h.elim q5 q6⟩
 
 /-- non-vacuity: in `a⎵⎵b` (bytes 97 32 32 98) the two blanks between the tokens are a blank run
     from the end of `a` (offset 1 = 0 + |a|) to the `Pos` of `b` (offset 3); the list has the shape
@@ -410,6 +414,13 @@ example : BlankRun #[97, 32, 32, 98] 1 3 ∧
     ((lex [97, 32, 32, 98]).toList.map fun t => (t.id, t.pos, t.val)) =
       [(tIDENTIFIER, 0, [97]), (tIDENTIFIER, 3, [98]), (tEOF, 3, [])] :=
   ⟨.step (by decide) (by decide) (.step (by decide) (by decide) (.refl _)), by decide +kernel⟩
+
+/-- non-vacuity for the number clause: in `12⎵b` the number token (Pos 0, value `12`) ends at
+    offset 2 = 0 + |12|, and `[2, 3)` is the blank run in front of `b` -/
+example : BlankRun #[49, 50, 32, 98] 2 3 ∧
+    ((lex [49, 50, 32, 98]).toList.map fun t => (t.id, t.pos, t.val)) =
+      [(tNUMBER, 0, [49, 50]), (tIDENTIFIER, 3, [98]), (tEOF, 3, [])] :=
+  ⟨.step (by decide) (by decide) (.refl _), by decide +kernel⟩
 
 /-! ## Errors, stack traces and break points copy the token's position (regenerated source fact) -/
 
